@@ -313,7 +313,8 @@ def rule_r3(ctx):
                  "fini slot of the same table (the framework finalizes after a failed init)", floor=30)
     prog = ctx.prog
     PAIRS = (("nni_proto_pipe_ops", "pipe_init", "pipe_fini"), ("nni_proto_sock_ops", "sock_init", "sock_fini"),
-             ("nni_proto_ctx_ops", "ctx_init", "ctx_fini"), ("nni_sp_pipe_ops", "p_init", "p_fini"))
+             ("nni_proto_ctx_ops", "ctx_init", "ctx_fini"), ("nni_sp_pipe_ops", "p_init", "p_fini"),
+             ("nni_sp_dialer_ops", "d_init", "d_fini"), ("nni_sp_listener_ops", "l_init", "l_fini"))
     for rec, i_slot, f_slot in PAIRS:
         for g, fields in prog.tables(rec):
             ini = strip_addr(fields.get(i_slot))
@@ -802,6 +803,216 @@ def rule_r9(ctx):
         raise AnalysisBroken("only %d registrations inside constructor steps found" % n_seen)
 
 
+# ---------------------------------------------------------------------------
+# R10: transport teardown slots tolerate the state p_init leaves
+
+
+def rule_r10(ctx):
+    from .. import guards as G
+    r = ctx.rule("C20.R10", "T1", "the framework may close, stop and finalize a transport pipe right after p_init (pipe creation "
+                 "failed later, e.g. the id map could not grow): p_close / p_stop / p_fini dereference a pointer field of the "
+                 "pipe that p_init does not set only under a NULL test of it", floor=12)
+    prog = ctx.prog
+    for g, fields in prog.tables("nni_sp_pipe_ops"):
+        ini = strip_addr(fields.get("p_init"))
+        if not ini or ini.get("k") != "fnref":
+            continue
+        finit = prog.fn(ini["n"], g["file"]) or prog.fn(ini["n"])
+        if finit is None or finit.cfg_failed:
+            continue
+        # record type of the transport pipe: type of the local the void* argument is converted to
+        rec = None
+        for s in finit.sites():
+            if s.node.get("k") == "decls":
+                for d in s.node["d"]:
+                    if d.get("rec") and d.get("init") is not None:
+                        rec = d["rec"]
+        if rec is None or rec not in prog.records:
+            continue
+        ptr_fields = {f["n"] for f in prog.records[rec].get("fields", []) if f.get("t", "").rstrip().endswith("*")}
+        set_in_init = set()
+        for s in finit.assigns():
+            l = s.node["lhs"]
+            if l.get("k") == "mem" and l.get("rec") == rec and not finit.reaches_exit(
+                    (finit.entry, 0), blocked=lambda b, i, e, s=s: (b, i) == (s.b, s.i)):
+                set_in_init.add(l["f"])
+        late = ptr_fields - set_in_init
+        for slot in ("p_close", "p_stop", "p_fini"):
+            t = strip_addr(fields.get(slot))
+            if not t or t.get("k") != "fnref":
+                continue
+            f0 = prog.fn(t["n"], g["file"]) or prog.fn(t["n"])
+            if f0 is None or f0.cfg_failed:
+                continue
+            def holders_of(f):
+                out = {}
+                for v in f.locals():
+                    ds = G.var_defs(f, v)
+                    if ds and all(x is not None and x.get("k") == "mem" and x.get("rec") == rec and x["f"] in late for _, x in ds):
+                        out[v] = ds[0][1]["f"]
+                return out
+
+            def assured_at(f, pos):
+                """late fields known to be non-NULL at pos in f (a dominating NULL test of the field or of a local holding it)"""
+                hs = holders_of(f)
+                out = set()
+                for fld in late:
+                    def tests(x, fld=fld):
+                        if x.get("k") == "var" and hs.get(x["n"]) == fld:
+                            return True
+                        return x.get("k") == "mem" and x.get("rec") == rec and x["f"] == fld
+                    nn = G.cond_edges(f, tests, want_nonzero=True)
+                    if nn and G.dominated(f, pos, nn):
+                        out.add(fld)
+                return out
+            todo = [(f0, set())]
+            # same-object helpers one level down (fini calling stop, close calling a removal helper): what the caller has
+            # established about the object at the call site holds in the helper
+            for c in f0.calls():
+                h = prog.resolve(f0, c.node["fn"]) if c.node.get("fn") else None
+                if h is not None and h.file == f0.file and h.static and not h.cfg_failed and len(c.node["args"]) == 1:
+                    known = assured_at(f0, (c.b, c.i))
+                    prev = [t for t in todo if t[0] is h]
+                    if prev:
+                        todo.remove(prev[0])
+                        known &= prev[0][1]
+                    todo.append((h, known))
+            for f, known in todo:
+                # locals that hold p->F for a late field F
+                holders = {}
+                for pos, rhs in [(pp, rr) for v in f.locals() for pp, rr in G.var_defs(f, v)]:
+                    pass
+                for v in f.locals():
+                    ds = G.var_defs(f, v)
+                    if ds and all(x is not None and x.get("k") == "mem" and x.get("rec") == rec and x["f"] in late for _, x in ds):
+                        holders[v] = ds[0][1]["f"]
+                n_deref = 0
+                for s in f.sites():
+                    n = s.node
+                    if n.get("k") != "mem" or not n.get("arrow"):
+                        continue
+                    b = f.expand(n["b"])
+                    fld = None
+                    if b.get("k") == "mem" and b.get("rec") == rec and b["f"] in late:
+                        fld, what = b["f"], show(b)
+                    elif b.get("k") == "var" and b["n"] in holders:
+                        fld, what = holders[b["n"]], b["n"]
+                    if fld is None or fld in known:
+                        continue
+                    n_deref += 1
+
+                    def tests(x, fld=fld, b=b):
+                        if x.get("k") == "var" and b.get("k") == "var" and x["n"] == b["n"]:
+                            return True
+                        return x.get("k") == "mem" and x.get("rec") == rec and x["f"] == fld
+                    nonnull = G.cond_edges(f, tests, want_nonzero=True)
+                    if nonnull and G.dominated(f, (s.b, s.i), nonnull):
+                        r.ob(f, "%s->%s line %s under a NULL test of %s.%s" % (what, n["f"], s.line, rec, fld))
+                    else:
+                        ctx.fail(r, f, "%s.%s dereferenced without a NULL test" % (rec, fld), s.line,
+                                 "%s (slot %s of %s) dereferences %s->%s, but %s.%s is first set after p_init (not in %s): when pipe "
+                                 "creation fails after p_init -- a failed allocation in the protocol's pipe_init or in the id "
+                                 "map -- the framework still runs this slot and it dereferences NULL"
+                                 % (f.name, slot, g["name"], what, n["f"], rec, fld, finit.name))
+                if not n_deref:
+                    r.ob(f, "%s: no dereference through a field that p_init leaves unset" % slot)
+
+
+# ---------------------------------------------------------------------------
+# R11: an init slot does not release what its fini slot (run by the framework after a failed init) releases again
+
+RELEASERS = ("nni_free", "nni_msg_free", "nni_strfree", "nni_aio_free", "nng_stream_free", "nng_stream_dialer_free",
+             "nng_stream_listener_free", "nni_lmq_fini", "nni_id_map_fini", "nng_udp_close", "nni_http_conn_fini")
+
+
+def rule_r11(ctx):
+    from .. import guards as G
+    r = ctx.rule("C20.R11", "T9", "the framework finalizes an object after its init slot failed: the init slot (and the helpers it "
+                 "hands the object to) neither frees the object itself nor releases a member that the fini slot releases too "
+                 "without clearing it", floor=20)
+    prog = ctx.prog
+    SLOTS = (("nni_sp_dialer_ops", "d_init", "d_fini"), ("nni_sp_listener_ops", "l_init", "l_fini"),
+             ("nni_sp_pipe_ops", "p_init", "p_fini"), ("nni_proto_sock_ops", "sock_init", "sock_fini"),
+             ("nni_proto_ctx_ops", "ctx_init", "ctx_fini"), ("nni_proto_pipe_ops", "pipe_init", "pipe_fini"))
+    for recname, i_slot, f_slot in SLOTS:
+        for g, fields in prog.tables(recname):
+            ini, fin = strip_addr(fields.get(i_slot)), strip_addr(fields.get(f_slot))
+            if not ini or not fin or ini.get("k") != "fnref" or fin.get("k") != "fnref":
+                continue
+            I = prog.fn(ini["n"], g["file"]) or prog.fn(ini["n"])
+            F = prog.fn(fin["n"], g["file"]) or prog.fn(fin["n"])
+            if I is None or F is None or I.cfg_failed or F.cfg_failed or not I.params:
+                continue
+
+            def obj_names(f, pname):
+                """the object parameter and locals initialised from it"""
+                out = {pname}
+                for v in f.locals():
+                    ds = G.var_defs(f, v)
+                    if ds and all(x is not None and x.get("k") in ("var", "cast") and
+                                  (x if x.get("k") == "var" else x["e"]).get("n") in out for _, x in ds):
+                        out.add(v)
+                return out
+
+            def released_fields(f, names, depth=0):
+                out = {}
+                for c in f.calls():
+                    if c.node.get("fn") in RELEASERS and c.node["args"]:
+                        a = f.expand(c.node["args"][0])
+                        while a is not None and a.get("k") == "un" and a.get("op") == "&":
+                            a = a["e"]
+                        if a is not None and a.get("k") == "mem":
+                            root = a
+                            chain = []
+                            while root.get("k") == "mem":
+                                chain.append(root["f"])
+                                root = f.expand(root["b"])
+                            if root.get("k") == "var" and root["n"] in names:
+                                out[".".join(reversed(chain))] = c
+                    elif depth < 1 and c.node.get("fn"):
+                        h = prog.resolve(f, c.node["fn"])
+                        if h is not None and h.file == f.file and not h.cfg_failed and h is not f:
+                            for k, a in enumerate(c.node["args"]):
+                                a = f.expand(a) if a is not None else None
+                                if a is not None and a.get("k") == "var" and a["n"] in names and k < len(h.params):
+                                    for fld, site in released_fields(h, obj_names(h, h.params[k]["n"]), depth + 1).items():
+                                        out.setdefault(fld, site)
+                return out
+            fin_rel = released_fields(F, obj_names(F, F.params[0]["n"]))
+            # init side: I itself and helpers that receive the object
+            work = [(I, obj_names(I, I.params[0]["n"]))]
+            for c in I.calls():
+                h = prog.resolve(I, c.node["fn"]) if c.node.get("fn") else None
+                if h is not None and h.file == I.file and not h.cfg_failed and h is not I:
+                    for k, a in enumerate(c.node["args"]):
+                        a = I.expand(a) if a is not None else None
+                        if a is not None and a.get("k") == "var" and a["n"] in work[0][1] and k < len(h.params):
+                            work.append((h, obj_names(h, h.params[k]["n"])))
+            for f, names in work:
+                bad = False
+                for c in f.calls("nni_free"):
+                    a = f.expand(c.node["args"][0])
+                    if a.get("k") == "var" and a["n"] in names:
+                        bad = True
+                        ctx.fail(r, f, "init path frees the object itself", c.line,
+                                 "%s (reached from %s.%s) frees %s: the object belongs to its owner, and %s is still called "
+                                 "for it after the failed init" % (f.name, g["name"], i_slot, a["n"], F.name))
+                for fld, c in released_fields(f, names, depth=1).items():
+                    if fld not in fin_rel:
+                        continue
+                    # cleared before every return that follows the release?
+                    clears = G.positions(x for x in G.stores(f, fld.split(".")[-1], value="null"))
+                    if G.must_pass(f, (c.b, c.i + 1), clears):
+                        bad = True
+                        ctx.fail(r, f, "member %s released by init and again by fini" % fld, c.line,
+                                 "%s releases %s on a failure path without clearing it, and %s (run after the failed init) "
+                                 "releases it again" % (f.name, fld, F.name))
+                    else:
+                        r.ob(f, "%s released and cleared" % fld)
+                if not bad:
+                    r.ob(f, "%s.%s: nothing the fini slot owns is released" % (g["name"], i_slot))
+
+
 def run(ctx):
     ctx.guard(rule_r1)
     ctx.guard(rule_r2)
@@ -810,3 +1021,5 @@ def run(ctx):
     ctx.guard(rule_r7)
     ctx.guard(rule_r8)
     ctx.guard(rule_r9)
+    ctx.guard(rule_r10)
+    ctx.guard(rule_r11)
